@@ -86,6 +86,11 @@ def install():
     logger.pickle = _PickleLog
     logger.logging = _LoggingShim()
     security.use_tls = lambda: True  # framing lemma: no handshake wrapper
+    # the challenge text is irrelevant to C14: fixed clock and nonce (CrossHair would explore random.random())
+    from vp.shims.reactor import NS
+
+    security.random = NS(random=lambda: 0.5)
+    security.datetime = NS(datetime=NS(now=lambda tz=None: '2024-01-01 00:00:00+00:00'), UTC=None)
 
 
 install()  # at import: paths must be deterministic
@@ -218,8 +223,10 @@ class FakePGP:
         self.calls += 1
         return _Verdict(bool(v) and len(x) > 0)
 
+    echo_always = False
+
     def decrypt(self, x):
-        if self.calls >= 2 and self.echo_ok:
+        if (self.calls >= 2 or self.echo_always) and self.echo_ok:
             return _Plain(self.wrapper._TwistedWrapper__msg.encode())
         return _Plain(b'id or stale echo')
 
@@ -341,6 +348,40 @@ def handshake_body(w1, n1, w2, n2, verd, app, c1, c2):
             rt.require(_hs_state(h2) == st1, 'handshake:split-residual', f'split leaves state {_hs_state(h2)}, whole delivery {st1}')
 
 
+def _hs_hand_at(phase, n, va, vb, echo):
+    """a fresh Hand whose wrapper is put in handshake phase `phase` (1..5) with the
+    expected length that phase inherits and an empty buffer"""
+    h, got = _hs_hand(va, vb, echo)
+    w = h._Hand__handshake
+    w._TwistedWrapper__phase = getattr(w, f'_p{phase}')
+    w._TwistedWrapper__len = {1: 4, 2: 4, 3: n, 4: 8, 5: n}[phase]
+    w._TwistedWrapper__msg = 'timestamp: t\nunique id: 0.5'
+    pgp = security._PGP
+    pgp.echo_always = True  # decrypt() yields the challenge iff the echo bit, whichever call it is
+    return h, got
+
+
+def phase_body(phase, n, a, b, va, vb, echo):
+    """chunk invariance from every phase state, ALL byte values: [a, b] == [a+b]"""
+    h1, g1 = _hs_hand_at(phase, n, va, vb, echo)
+    h1.dataReceived(a + b)
+    h2, g2 = _hs_hand_at(phase, n, va, vb, echo)
+    h2.dataReceived(a)
+    if h2.transport.lost == 0:
+        h2.dataReceived(b)
+    if g1:
+        rt.nontrivial()
+    if h1.transport.lost or h1._Hand__handshake._phase().__name__ != f'_p{phase}':
+        rt.nontrivial()
+    rt.require((h1.transport.lost > 0) == (h2.transport.lost > 0), 'handshake:phase-split-close', f'phase {phase}: a split changes the close decision')
+    rt.require(len(g1) == len(g2), 'handshake:phase-split-count', f'phase {phase}: a split changes the number of delivered messages')
+    rt.require(g1 == g2, 'handshake:phase-split-messages', f'phase {phase}: a split changes the delivered messages')
+    if h1.transport.lost == 0:
+        rt.require(_hs_state(h1) == _hs_state(h2), 'handshake:phase-split-residual', f'phase {phase}: a split leaves another parser state')
+    else:
+        rt.require(not g1, 'handshake:delivered-on-failure', f'phase {phase}: messages delivered although the handshake failed')
+
+
 INFO = {
     'explanation': 'Two-chunk framing lemma on the real dataReceived of farm.Hand, shelve comms.Worker and LogSink, and '
     'message.receive under solver-chosen short reads: every byte of the stream is a z3 variable (header bytes stay '
@@ -358,8 +399,8 @@ INFO = {
         'pl.message.receive',
     ],
     'bounds': {
-        'quick': 'all byte values; |a|+|b| <= 9 (every split position); receive: stream <= 8 bytes, 3 short reads; handshake: streams assembled from fields (first words in {4,5,0}, lengths 0..2, both signature verdicts and the echo, 0-2 trailing application frames), every split into two chunks; every split into three chunks for the valid streams',
-        'thorough': 'all byte values; |a|+|b| <= 12 (every split position, two complete frames fit); receive: stream <= 10 bytes; handshake: same fields, every split into two and three chunks',
+        'quick': 'all byte values; |a|+|b| <= 9 (every split position); receive: stream <= 8 bytes, 3 short reads; handshake: streams assembled from fields (first words in {4,5,0}, lengths 0..2, both signature verdicts and the echo, 0-2 trailing application frames), every split into two chunks; every split into three chunks for the valid streams; per-phase lemma: from each of the 5 handshake phases (id/reply lengths 1..3), ALL byte values, |a|+|b| <= 10, every split',
+        'thorough': 'per-phase lemma |a|+|b| <= 12; all byte values; |a|+|b| <= 12 (every split position, two complete frames fit); receive: stream <= 10 bytes; handshake: same fields, every split into two and three chunks',
     },
     'assumptions': [
         'struct.unpack(">I"/">L"/">II") replaced by a pure-Python big-endian decode (differential-tested against struct on every run)',
@@ -367,7 +408,7 @@ INFO = {
         'comms: message kind (connection kept or closed) derived from the first payload byte',
         'Hand._process, Worker.do, the log handler are recorders; logging.makeLogRecord builds a plain record object',
         'TLS mode for the framing lemma (no handshake wrapper); the handshake obligations run farm.Hand in legacy mode with the real TwistedWrapper',
-        'security._PGP replaced by FakePGP: verify(x).valid = solver-chosen verdict and x non-empty; decrypt of the reply = the challenge iff the solver-chosen echo bit; after loseConnection() the transport delivers nothing more (Twisted contract)',
+        'the challenge is built from a fixed clock and nonce; security._PGP replaced by FakePGP: verify(x).valid = solver-chosen verdict and x non-empty; decrypt of the reply = the challenge iff the solver-chosen echo bit; after loseConnection() the transport delivers nothing more (Twisted contract)',
     ],
     'outside': ['streams longer than the bound', 'pickle internals', 'TLS record layer'],
 }
@@ -419,6 +460,15 @@ def obligations(tier):
     out.append(ob.make('handshake', 'handshake', 'vp.harness.c14:handshake_body', 'n1: int, verd: int, ' + hs_sig,
                        [f'0 <= n1 < 3 and 0 <= w2 < 3 and 0 <= n2 < 3 and 0 <= verd < 8 and 0 <= app < {len(APPS)}', '0 <= c1 <= 40 and c1 <= c2 <= 40'],
                        "{'w1': 0, 'n1': n1, 'w2': w2, 'n2': n2, 'verd': verd, 'app': app, 'c1': c1, 'c2': c2}", timeout=600, twin=True))
+    PL = 10 if tier == 'quick' else 12
+    for phase, ns in ((1, (4,)), (2, (4,)), (3, (1, 2, 3)), (4, (8,)), (5, (1, 2, 3))):
+        for nn in ns:
+            for na in range(0, PL + 1):
+                out.append(ob.make(f'phase{phase}-n{nn}-a{na}', 'phase', 'vp.harness.c14:phase_body', 'a: bytes, b: bytes, va: bool, vb: bool, echo: bool',
+                                   [f'len(a) == {na} and len(b) <= {PL - na}'], f"{{'phase': {phase}, 'n': {nn}, 'a': a, 'b': b, 'va': va, 'vb': vb, 'echo': echo}}",
+                                   timeout=600 if tier == 'quick' else 3000))
+    out.append(ob.make('phase', 'phase', 'vp.harness.c14:phase_body', 'a: bytes, b: bytes, va: bool, vb: bool, echo: bool',
+                       ['len(a) == 2 and len(b) <= 5'], "{'phase': 5, 'n': 1, 'a': a, 'b': b, 'va': va, 'vb': vb, 'echo': echo}", timeout=300, twin=True))
     n = 8 if tier == 'quick' else 10
     out.append(
         ob.make(
